@@ -195,15 +195,13 @@ func (c directCase) response() (resp any, named, opt []kv) {
 		add("session_state", ss)
 		return &codeResp{Code: tag("co", c.s), State: c.s, SessionState: ss}, named, nil
 	}
-	r := &oidc.AccessTokenResponse{IDToken: tag("it", c.s), State: c.s}
+	// shaped like op.CreateTokenResponse makes it
+	r := &oidc.AccessTokenResponse{IDToken: tag("it", c.s), State: c.s, TokenType: oidc.BearerToken, ExpiresIn: 300, Scope: oidc.SpaceDelimitedArray{"openid", "profile"}}
 	add("id_token", r.IDToken)
+	opt = []kv{{"token_type", oidc.BearerToken}, {"expires_in", "300"}, {"scope", "openid profile"}}
 	if c.rtype == "id_token token" {
 		r.AccessToken = tag("at", c.s)
-		r.TokenType = oidc.BearerToken
-		r.ExpiresIn = 300
-		r.Scope = oidc.SpaceDelimitedArray{"openid", "profile"}
 		add("access_token", r.AccessToken)
-		opt = []kv{{"token_type", oidc.BearerToken}, {"expires_in", "300"}, {"scope", "openid profile"}}
 	}
 	add("state", c.s)
 	return r, named, opt
@@ -390,8 +388,9 @@ func handlerWant(c handlerCase, r *rig.Rig) *want {
 		w.opaque = []string{"id_token"}
 		if c.rtype == "id_token token" {
 			w.opaque = append(w.opaque, "access_token")
-			w.opt = []kv{{"token_type", oidc.BearerToken}, {"scope", "openid profile"}}
 		}
+		w.opt = []kv{{"token_type", oidc.BearerToken}, {"scope", "openid profile"}}
+		w.optAny = []string{"expires_in"}
 		add("state", c.s)
 	}
 	w.check = opaqueCheck(r, 0, storedCode(r))
@@ -434,7 +433,7 @@ func (c httpCase) run(r *rig.Rig) *got {
 	cause := oidc.ErrAccessDenied().WithDescription("%s", tag("ed", c.s))
 	switch c.kind {
 	case "authzerr":
-		q.Set("scope", "profile") // no openid: refused after the redirect URI has been validated
+		q.Set("prompt", "none login") // contradictory prompt: refused after the redirect URI has been validated
 	case "createfault":
 		r.Core.Fault = func(_ int, m string) error {
 			if m == "CreateAuthRequest" {
@@ -498,8 +497,9 @@ func httpWant(c httpCase, r *rig.Rig) *want {
 			w.opaque = []string{"id_token"}
 			if c.rtype == "id_token token" {
 				w.opaque = append(w.opaque, "access_token")
-				w.opt = []kv{{"token_type", oidc.BearerToken}, {"scope", "openid profile"}}
 			}
+			w.opt = []kv{{"token_type", oidc.BearerToken}, {"scope", "openid profile"}}
+			w.optAny = []string{"expires_in"}
 			add("state", c.s)
 		}
 	case "notdone":
@@ -551,9 +551,13 @@ func TestCheck(t *testing.T) {
 		"LegacyServer router answers authorize-request validation errors with JSON instead of a redirect: not demanded")
 
 	lvlDirect := engine.Pick(c, 1, 2)
-	lvlHandler := engine.Pick(c, 1, 1)
+	lvlHandler := engine.Pick(c, 0, 1)
 	lvlHTTP := engine.Pick(c, 0, 1)
 
+	t0 := time.Now()
+	lap := func(part string) { // progress line only; no verdict depends on it
+		fmt.Printf("part %s done after %.1fs\n", part, time.Since(t0).Seconds())
+	}
 	// --- part 1 -------------------------------------------------------------
 	sp1 := engine.Space{strDim("str", lvlDirect), dURI, dMode, dType, engine.D("kind", "success", "error"), dState}
 	c.RunE1(engine.E1{
@@ -568,6 +572,7 @@ func TestCheck(t *testing.T) {
 		},
 	})
 
+	lap("direct")
 	// --- part 2 -------------------------------------------------------------
 	sp2 := engine.Space{strDim("str", lvlHandler), dURI, dMode, dType, engine.D("kind", "success", "AuthRequestError", "TryErrorRedirect"), dState}
 	c.RunE1(engine.E1{
@@ -584,6 +589,7 @@ func TestCheck(t *testing.T) {
 		},
 	})
 
+	lap("handler")
 	// --- part 3 -------------------------------------------------------------
 	sp3 := engine.Space{engine.D("router", rig.Routers...), dURI, dMode, dType,
 		engine.D("kind", "success", "notdone", "cbfault", "authzerr", "createfault"), strDim("str", lvlHTTP), dState}
@@ -604,5 +610,6 @@ func TestCheck(t *testing.T) {
 			}
 		},
 	})
+	lap("http")
 	c.Finish()
 }
